@@ -19,6 +19,8 @@ import GnarkVerif.Props.C08_gen_bw6_761_fr
 import GnarkVerif.Props.C08_gen_goldilocks
 import GnarkVerif.Props.C08_gen_koalabear
 import GnarkVerif.Props.C08_gen_babybear
+import GnarkVerif.Props.C08_gen_bw6_633_fp
+import GnarkVerif.Props.C08_gen_bw6_761_fp
 /-
 C08_gen — tie T for the byte <-> limb conversions of the field packages: every theorem below is about definitions REGENERATED from
 /repo on every run (Gen/Bytes/<Field>.lean by tools/goslp/bytes.go, calling Gen/Limb/<Field>.lean by tools/goslp/limb.go).
@@ -30,4 +32,9 @@ Per field (namespace GV.C08gen.<field>), for ALL byte arrays / slices and ALL ca
 * `Bytes_spec`, `SetBytesCanonical_eq / _spec / _model`, `SetBytes_spec` (fast path on canonical Bytes-long input, the PARAMETER
   `setBigIntBE e` on every other input), `SetBytes_lenient` (with the parameter specified as be(e) mod q: = `Conv.setBytes`);
 * `Bits_spec`, `Uint64_spec`, `FitsOnOneWord_spec`, `IsUint64_spec`, `SetUint64_spec`.
+21 fields unconditionally (18 fields of 4/5/6 words through C01_limb's Mul_spec / fromMontGeneric_spec; goldilocks; koalabear and babybear, whose
+toMont is a shift and a remainder). bw6_633_fp (10 words) and bw6_761_fp (12 words): every theorem takes the hypothesis `MontSpec` (toMont = Mul by
+rSquare and _fromMontGeneric meet GV.Field.toMont / fromMont): C01_limb has per-round theorems only for these two fields, the composed functions are
+not proved there; wiring, strictness, dispatch and round trips are proved from that one hypothesis. goldilocks `SetUint64_spec` needs v < q (Mul_spec
+of C01_limb wants a reduced operand). NOT covered: SetBigInt / SetString / Text / JSON / vectors (math/big, io: hand model + K).
 -/
